@@ -79,6 +79,9 @@ func DecryptMessage(key, data []byte, usage uint32, export bool, e etype.EType) 
 
 // VerifyIntegrity checks the integrity checksum of the data matches that calculated from the decrypted data.
 func VerifyIntegrity(key, pt, data []byte, e etype.EType) bool {
+	if len(data) < e.GetHMACBitLength()/8 {
+		return false
+	}
 	chksum := HMAC(key, pt)
 	return hmac.Equal(chksum, data[:e.GetHMACBitLength()/8])
 }
